@@ -11,6 +11,7 @@ The property oracles (exact `Fraction` arithmetic, shapely) never use the model.
 from __future__ import annotations
 
 import math
+import re
 import types
 from fractions import Fraction
 from typing import List, Optional, Tuple
@@ -350,34 +351,103 @@ def oracle_web(C, O, z: int, npix: int, ks: List[Tuple[int, int]]):
         C.oracle(False, "web-tiles-raises", case, repr(e))
 
 
+
+# ----------------------------------------------------------------------------- F-mode buffer
+DISCRETE_OPS = ("pt", "idxb", "tiles", "poly", "bin")
+_ATOM = re.compile(r"[\[\],; ]+")
+
+
+def corr(R: Run, line: str, fn, sig: Optional[str] = None, safe: bool = True) -> str:
+    """E-mode (and spec) lines go straight to the framework.  F-mode lines (binary64 model) are buffered and
+    classified at the end of `run` (see `flush_fbuf`)."""
+    t = line.split(" ", 3)
+    if len(t) > 2 and t[2] == "F":
+        out = guarded(fn)
+        R.__dict__.setdefault("_fbuf", []).append((line, out, sig, safe))
+        return out
+    return R.corr(line, fn, sig)
+
+
+def drift_equal(line: str, real: str, model: str, safe: bool) -> bool:
+    """True when `real` and `model` differ by float rounding only: every rational within 1e-12 relative to the
+    magnitude of the line's values, and discrete outputs equal unless the input was generated within rounding
+    distance of a decision boundary (`safe` False)."""
+    if real == model:
+        return True
+    if real.startswith("ERR") or model.startswith("ERR") or model == "bad-op":
+        return False
+    op = line.split(" ")[1]
+    if op in DISCRETE_OPS:
+        return not safe
+    a = [x for x in _ATOM.split(real) if x]
+    b = [x for x in _ATOM.split(model) if x]
+    if len(a) != len(b):
+        return False
+    try:
+        fa, fb = [Fraction(x) for x in a], [Fraction(x) for x in b]
+    except (ValueError, ZeroDivisionError):
+        return False
+    tol = Fraction(1, 10**12) * max([Fraction(1)] + [abs(v) for v in fa + fb])
+    return all(abs(u - v) <= tol for u, v in zip(fa, fb))
+
+
+def flush_fbuf(R: Run):
+    """F-mode lines must agree bit-for-bit with the real code.  If some differ but ALL differences are
+    rounding-level (`drift_equal`) — e.g. after a re-association of a float expression in odc-geo, which cannot
+    affect the property beyond the documented slack — the drifting lines are reported as a note instead of a broken
+    correspondence (the exact E-mode correspondence and the property oracles are unaffected by this rule).
+    Any other difference registers every F line strictly."""
+    buf = R.__dict__.pop("_fbuf", [])
+    if not buf:
+        return
+    try:
+        outs = run_driver("C14", [b[0] for b in buf]) if R.proof_break is None else None
+    except Exception:  # pylint: disable=broad-except
+        outs = None
+    drift = []
+    if outs is not None:
+        diff = [(b, m) for b, m in zip(buf, outs) if b[1] != m]
+        if diff and all(drift_equal(b[0], b[1], m, b[3]) for b, m in diff):
+            drift = [b[0] for b, _ in diff]
+    skip = set(drift)
+    for line, out, sig, _ in buf:
+        if line in skip:
+            continue
+        R.corr(line, (lambda o=out: o), sig)
+    if drift:
+        R.count("F-mode-rounding-drift", len(drift))
+        R.notes.append(f"{len(drift)} of {len(buf)} binary64-mode lines differ from the real code by float rounding only "
+                       f"(<=1e-12 relative, no decision changed away from a boundary), e.g. {drift[0]}")
+
 # ----------------------------------------------------------------------------- case emitters
 def emit_grid(R: Run, O, sp: Spec, modes: str):
     for m in modes:
-        R.corr(f"c14 grid {m} {sp.tok()}", lambda: grid_s(sp.make(O)), sig=None)
+        corr(R, f"c14 grid {m} {sp.tok()}", lambda: grid_s(sp.make(O)), sig=None)
 
 
 def emit_pt(R: Run, O, gs, sp: Spec, x: float, y: float, modes: str, tag=""):
     for m in modes:
-        R.corr(f"c14 pt {m} {sp.tok()} {fs(x)} {fs(y)}", lambda: idx_s(gs.pt2idx(x, y).xy),
-               sig=f"pt|{m}|{sp.sig()}{tag}")
+        corr(R, f"c14 pt {m} {sp.tok()} {fs(x)} {fs(y)}", lambda: idx_s(gs.pt2idx(x, y).xy),
+             sig=f"pt|{m}|{sp.sig()}{tag}", safe=(m == "E" or e_safe_point(sp, x, y)))
 
 
 def emit_tile(R: Run, O, gs, sp: Spec, k, modes: str):
     for m in modes:
-        R.corr(f"c14 tile {m} {sp.tok()} {k[0]} {k[1]}", lambda: tile_s(gs.tile_geobox(k)),
+        corr(R, f"c14 tile {m} {sp.tok()} {k[0]} {k[1]}", lambda: tile_s(gs.tile_geobox(k)),
                sig=f"tile|{m}|{sp.sig()}")
 
 
 def emit_query(R: Run, O, gs, sp: Spec, q, modes: str, tag=""):
     bb = O.BoundingBox(*q, CRS)
     qs = " ".join(fs(v) for v in q)
+    safe = e_safe_query(sp, q)
     for m in modes:
-        R.corr(f"c14 idxb {m} {sp.tok()} {qs}", lambda: " ".join(str(int(v)) for v in gs.idx_bounds(bb)),
-               sig=f"idxb|{m}|{sp.sig()}{tag}")
+        corr(R, f"c14 idxb {m} {sp.tok()} {qs}", lambda: " ".join(str(int(v)) for v in gs.idx_bounds(bb)),
+             sig=f"idxb|{m}|{sp.sig()}{tag}", safe=safe)
     m = modes[-1]
-    R.corr(f"c14 tiles {m} {sp.tok()} {qs}",
-           lambda: list_s(sorted((tuple(map(int, k)) for k, _ in gs.tiles(bb)), key=lambda k: (k[1], k[0])), idx_s),
-           sig=f"tiles|{m}{tag}")
+    corr(R, f"c14 tiles {m} {sp.tok()} {qs}",
+         lambda: list_s(sorted((tuple(map(int, k)) for k, _ in gs.tiles(bb)), key=lambda k: (k[1], k[0])), idx_s),
+         sig=f"tiles|{m}{tag}", safe=safe)
 
 
 def emit_poly(R: Run, O, gs, sp: Spec, pts, modes: str, tag=""):
@@ -389,7 +459,7 @@ def emit_poly(R: Run, O, gs, sp: Spec, pts, modes: str, tag=""):
                              key=lambda k: (k[1], k[0])), idx_s)
 
     for m in modes:
-        R.corr(f"c14 poly {m} {sp.tok()} {ptok}", f, sig=f"poly|{m}{tag}")
+        corr(R, f"c14 poly {m} {sp.tok()} {ptok}", f, sig=f"poly|{m}{tag}")
 
 
 def emit_roundtrip(R: Run, O, gs, sp: Spec, j, k, modes: str):
@@ -398,7 +468,7 @@ def emit_roundtrip(R: Run, O, gs, sp: Spec, j, k, modes: str):
         return bb_s(g2[k].boundingbox)
 
     for m in modes:
-        R.corr(f"c14 fstrt {m} {sp.tok()} {j[0]} {j[1]} {k[0]} {k[1]}", f, sig=f"fstrt|{m}|{sp.sig()}")
+        corr(R, f"c14 fstrt {m} {sp.tok()} {j[0]} {j[1]} {k[0]} {k[1]}", f, sig=f"fstrt|{m}|{sp.sig()}")
 
 
 def emit_fst(R: Run, O, q, ny, nx, ix, iy, fx, fy, px, py, k, modes: str, shape_arg=None):
@@ -409,7 +479,7 @@ def emit_fst(R: Run, O, q, ny, nx, ix, iy, fx, fy, px, py, k, modes: str, shape_
         return probe_s(g, px, py, k)
 
     for m in modes:
-        R.corr(f"c14 fst {m} {' '.join(fs(v) for v in q)} {ny} {nx} {ix} {iy} {bool_s(fx)} {bool_s(fy)} "
+        corr(R, f"c14 fst {m} {' '.join(fs(v) for v in q)} {ny} {nx} {ix} {iy} {bool_s(fx)} {bool_s(fy)} "
                f"{fs(px)} {fs(py)} {k[0]} {k[1]}", f)
 
 
@@ -456,7 +526,7 @@ def run(R: Run):
             q *= rng.choice([1, -1])
         else:
             q = Fraction(rng.uniform(-1e8, 1e8)) + Fraction(rng.uniform(-1, 1)) * Fraction(1, 2**60)
-        R.corr(f"c14 fl {frac_s(q)}", lambda: frac_s(float(q)), sig="spec-fl64|ok")
+        corr(R, f"c14 fl {frac_s(q)}", lambda: frac_s(float(q)), sig="spec-fl64|ok")
 
     # --- Bin1D directly ------------------------------------------------------------------------
     for sz in (Fraction(1), Fraction(5, 2), Fraction(3), Fraction(1, 4)):
@@ -464,7 +534,7 @@ def run(R: Run):
             for d in (1, -1):
                 bin1 = O.Bin1D(float(sz), float(o), d)
                 for k in range(-6, 7):
-                    R.corr(f"c14 item E {frac_s(sz)} {frac_s(o)} {d} {k}",
+                    corr(R, f"c14 item E {frac_s(sz)} {frac_s(o)} {d} {k}",
                            lambda: " ".join(fs(v) for v in bin1[k]), sig=f"item|dir{d}")
                     lo, hi = bin1[k]
                     nlo, _ = bin1[k + d]
@@ -472,7 +542,7 @@ def run(R: Run):
                              {"sz": frac_s(sz), "o": frac_s(o), "d": d, "k": k}, f"bin {k} = {(lo, hi)}, bin {k + d} starts {nlo}")
                     for fr in (Fraction(0), Fraction(1, 2), Fraction(1, 1024), 1 - Fraction(1, 1024)):
                         x = float(o + (k + fr) * sz)
-                        R.corr(f"c14 bin E {frac_s(sz)} {frac_s(o)} {d} {fs(x)}", lambda: str(bin1.bin(x)),
+                        corr(R, f"c14 bin E {frac_s(sz)} {frac_s(o)} {d} {fs(x)}", lambda: str(bin1.bin(x)),
                                sig=f"bin|dir{d}|" + ("edge" if fr == 0 else "inside"))
                         kk = bin1.bin(x)
                         l2, h2 = bin1[kk]
@@ -480,23 +550,23 @@ def run(R: Run):
                                  {"sz": frac_s(sz), "o": frac_s(o), "d": d, "x": fs(x)},
                                  f"bin({x}) = {kk} but that bin is [{l2},{h2})")
     for args in ((0.0, 0.0, 1), (-1.0, 0.0, 1), (1.0, 0.0, 0), (1.0, 0.0, 2), (1.0, 5.0, -1)):
-        R.corr(f"c14 bin E {fs(args[0])} {fs(args[1])} {args[2]} 1", lambda: str(O.Bin1D(*args).bin(1.0)))
+        corr(R, f"c14 bin E {fs(args[0])} {fs(args[1])} {args[2]} 1", lambda: str(O.Bin1D(*args).bin(1.0)))
     for _ in range(R.pick(300, 3000)):
         # from_sample_bin, exact (dyadic) and arbitrary doubles
         d = rng.choice([1, -1])
         idx = rng.randint(-50, 50)
         x0 = Fraction(rng.randint(-4000, 4000), 8)
         x1 = x0 + Fraction(rng.randint(-2, 64), 4)
-        R.corr(f"c14 fsb E {idx} {frac_s(x0)} {frac_s(x1)} {d}",
+        corr(R, f"c14 fsb E {idx} {frac_s(x0)} {frac_s(x1)} {d}",
                lambda: (lambda b: f"{fs(b.sz)} {fs(b.origin)} {b.direction}")(O.Bin1D.from_sample_bin(idx, (float(x0), float(x1)), d)))
         y0 = rng.uniform(-1e7, 1e7)
         y1 = y0 + rng.choice([rng.uniform(0, 1e5), 100000.0, 96000.0, 1 / 3, -1.0])
-        R.corr(f"c14 fsb F {idx} {fs(y0)} {fs(y1)} {d}",
+        corr(R, f"c14 fsb F {idx} {fs(y0)} {fs(y1)} {d}",
                lambda: (lambda b: f"{fs(b.sz)} {fs(b.origin)} {b.direction}")(O.Bin1D.from_sample_bin(idx, (y0, y1), d)))
 
     # --- exact stream, exhaustive on a small lattice ----------------------------------------------
     lattice = []
-    for (ny, nx) in ((2, 3),):
+    for (ny, nx) in R.pick(((2, 3),), ((2, 3), (1, 4))):
         for arx in (Fraction(1, 2), Fraction(3, 4)):
             for sx in (1, -1):
                 for sy in (1, -1):
@@ -547,7 +617,7 @@ def run(R: Run):
     # --- exact stream at tiny scale: the tolerance arithmetic itself is exact (coordinates are multiples
     #     of 2^-78 below 2^-26, so x ± 1e-8 needs ≤ 53 bits); tile edges ± exactly 1e-8 hit in E mode
     U = Fraction(1, 2**30)
-    for _ in range(R.pick(60, 400)):
+    for _ in range(R.pick(60, 1000)):
         ny, nx = rng.randint(1, 3), rng.randint(1, 3)
         sp = Spec(ny, nx, rng.choice([1, -1]) * U * rng.choice([1, 2]), rng.choice([1, -1]) * U * rng.choice([1, 2]),
                   U * rng.randint(-4, 4), U * rng.randint(-4, 4), rng.random() < 0.5, rng.random() < 0.5)
@@ -571,7 +641,7 @@ def run(R: Run):
         return Fraction(rng.randint(lo * 2**bits, hi * 2**bits), 2**bits)
 
     exact_specs = []
-    for _ in range(R.pick(60, 500)):
+    for _ in range(R.pick(60, 1500)):
         ny, nx = rng.choice([1, 2, 5, 10, 100, 256, 3200, 4000]), rng.choice([1, 3, 7, 10, 100, 256, 3200, 4000])
         rx = rng.choice([1, -1]) * Fraction(rng.choice([1, 3, 5, 25, 30]), 2 ** rng.randint(0, 8))
         ry = rng.choice([1, -1]) * Fraction(rng.choice([1, 3, 5, 25, 30]), 2 ** rng.randint(0, 8))
@@ -614,13 +684,17 @@ def run(R: Run):
                              (2, 3, 1.0, 0.0), (2, -3, -1.0, 1.0)):
         sp = Spec(ny, nx, rx, ry, 0.0, 0.0, False, False)
         emit_grid(R, O, sp, "EF")
-        R.corr(f"c14 pt E {sp.tok()} 1 1", lambda: idx_s(sp.make(O).pt2idx(1.0, 1.0).xy))
+        corr(R, f"c14 pt E {sp.tok()} 1 1", lambda: idx_s(sp.make(O).pt2idx(1.0, 1.0).xy))
 
     # --- from_sample_tile: exact and error branches -----------------------------------------------
-    for _ in range(R.pick(150, 1500)):
+    for _ in range(R.pick(400, 3000)):
         l, b = dy(-500, 500, 4), dy(-500, 500, 4)
-        w, h = Fraction(rng.randint(-1, 64), 2), Fraction(rng.randint(-1, 64), 2)
-        ny, nx = rng.choice([-1, 0, 1, 2, 4, 8, 16, -2]), rng.choice([-1, 0, 1, 2, 4, 8, 16])
+        if rng.random() < 0.8:
+            w, h = Fraction(rng.randint(1, 64), 2), Fraction(rng.randint(1, 64), 2)
+            ny, nx = rng.choice([1, 2, 4, 8, 16, 256]), rng.choice([1, 2, 4, 8, 16, 512])
+        else:
+            w, h = Fraction(rng.randint(-1, 64), 2), Fraction(rng.randint(-1, 64), 2)
+            ny, nx = rng.choice([-1, 0, 1, 2, 4, 8, 16, -2]), rng.choice([-1, 0, 1, 2, 4, 8, 16])
         ix, iy = rng.randint(-50, 50), rng.randint(-50, 50)
         fx, fy = rng.random() < 0.5, rng.random() < 0.5
         q = tuple(map(float, (l, b, l + w, b + h)))
@@ -659,7 +733,7 @@ def run(R: Run):
         ((3333, 3334), (1 / 3, -1 / 3), (-1234.5678, 8765.4321)),
         ((256, 256), (305.748113140705, -305.748113140705), (-20037508.342789244, -20037508.342789244)),
     ]
-    for _ in range(R.pick(90, 700)):
+    for _ in range(R.pick(90, 2500)):
         (ny, nx), (rx, ry), (ox, oy) = rng.choice(presets)
         if rng.random() < 0.3:
             rx, ry = rng.choice([10, 15, 30, 0.1, 1 / 7, 60.0]) * rng.choice([1, -1]), rng.uniform(0.001, 50) * rng.choice([1, -1])
@@ -713,19 +787,12 @@ def run(R: Run):
             oracle_polygon(R, gs, sp, pts, False, O)
 
     # polygon given in another CRS (reprojected by the library first): shapely on the reprojected polygon
-    try:
-        gsa = O.GridSpec("epsg:3577", (4000, 4000), 25.0)
-        for _ in range(R.pick(5, 40)):
-            lon, lat = rng.uniform(115, 150), rng.uniform(-40, -12)
-            p = O.geom.polygon([(lon, lat), (lon + rng.uniform(0.5, 3), lat), (lon + 1, lat + rng.uniform(0.5, 3)), (lon, lat)], "epsg:4326")
-            got = sorted(tuple(map(int, k)) for k, _ in gsa.tiles_from_geopolygon(p))
-            pp = p.to_crs("epsg:3577", check_and_fix=True)
-            import shapely.geometry as sg
-            ref = sorted(tuple(map(int, k)) for k, gb in gsa.tiles(pp.boundingbox) if pp.geom.intersects(sg.box(*gb.boundingbox)))
-            R.oracle(got == ref and len(got) > 0, "polygon-query-other-crs", {"lon": lon, "lat": lat},
-                     f"{got[:6]} vs {ref[:6]}", sig="poly|other-crs")
-    except Exception as e:  # pylint: disable=broad-except
-        R.oracle(False, "polygon-query-other-crs-raises", {}, repr(e))
+    for _ in range(R.pick(5, 40)):
+        lon, lat = rng.uniform(115, 150), rng.uniform(-40, -12)
+        ring = [(lon, lat), (lon + rng.uniform(0.5, 3), lat), (lon + 1, lat + rng.uniform(0.5, 3)), (lon, lat)]
+        ok, what = other_crs_case(O, ring)
+        R.oracle(ok, "polygon-query-other-crs", {"op": "poly4326", "ring": [list(p) for p in ring]}, what,
+                 sig="poly|other-crs")
 
     # --- web tiles ------------------------------------------------------------------------------------
     # (a) the real constant: F mode must reproduce every rounding of pi*R*(2**(1-z)), y - tsz, …
@@ -736,7 +803,7 @@ def run(R: Run):
             ks = [(0, 0), (n - 1, n - 1), (n // 2, n // 3), (rng.randint(0, max(0, n - 1)), rng.randint(0, max(0, n - 1))), (-1, n)]
             for k in ks[: R.pick(3, 5)]:
                 px, py = rng.uniform(-P_WEB, P_WEB), rng.uniform(-P_WEB, P_WEB)
-                R.corr(f"c14 web F {fs(P_WEB)} {z} {npix} {fs(px)} {fs(py)} {k[0]} {k[1]}",
+                corr(R, f"c14 web F {fs(P_WEB)} {z} {npix} {fs(px)} {fs(py)} {k[0]} {k[1]}",
                        lambda: probe_s(O.GridSpec.web_tiles(z, npix), px, py, k), sig="web|F|real-pi")
             if 0 <= z <= 24:
                 oracle_web(R, O, z, npix, ks[:4])
@@ -751,8 +818,8 @@ def run(R: Run):
                     hz.append(f"z={z}: {C2.fail['what']}")
                     if R.match_known("web-tiles-high-zoom-rounding") is not None:
                         R.oracle(False, "web-tiles-high-zoom-rounding", C2.fail["case"], C2.fail["what"])
-    R.corr(f"c14 web F {fs(P_WEB)} 3 -1 0 0 0 0", lambda: probe_s(O.GridSpec.web_tiles(3, -1), 0.0, 0.0, (0, 0)))
-    R.corr(f"c14 web F {fs(P_WEB)} 3 0 0 0 0 0", lambda: probe_s(O.GridSpec.web_tiles(3, 0), 0.0, 0.0, (0, 0)))
+    corr(R, f"c14 web F {fs(P_WEB)} 3 -1 0 0 0 0", lambda: probe_s(O.GridSpec.web_tiles(3, -1), 0.0, 0.0, (0, 0)))
+    corr(R, f"c14 web F {fs(P_WEB)} 3 0 0 0 0 0", lambda: probe_s(O.GridSpec.web_tiles(3, 0), 0.0, 0.0, (0, 0)))
     # (b) exact stream: math.pi substituted by a short dyadic so that every operation is exact (E mode)
     real_math = O.gridspec.math
     try:
@@ -770,7 +837,7 @@ def run(R: Run):
                 for k in ((0, 0), (n - 1, n - 1), (rng.randint(0, n - 1), rng.randint(0, n - 1))):
                     px = float(Fraction(-Pq) + Fraction(2 * Pq) * Fraction(rng.randint(0, 64), 64))
                     py = float(Fraction(-Pq) + Fraction(2 * Pq) * Fraction(rng.randint(0, 64), 64))
-                    R.corr(f"c14 web E {fs(Pq)} {z} 256 {fs(px)} {fs(py)} {k[0]} {k[1]}",
+                    corr(R, f"c14 web E {fs(Pq)} {z} 256 {fs(px)} {fs(py)} {k[0]} {k[1]}",
                            lambda: probe_s(O.GridSpec.web_tiles(z), px, py, k), sig="web|E|dyadic-pi")
     finally:
         O.gridspec.math = real_math
@@ -779,7 +846,7 @@ def run(R: Run):
     sp = Spec(10, 10, 0.5, -0.5, 0.0, 0.0, False, False)
     gs = sp.make(O)
     qthin = (5 + 2.0**-28, 1.0, 5 + 2.0**-28, 2.0)
-    out = R.corr(f"c14 idxb E {sp.tok()} {' '.join(fs(v) for v in qthin)}",
+    out = corr(R, f"c14 idxb E {sp.tok()} {' '.join(fs(v) for v in qthin)}",
                  lambda: " ".join(str(int(v)) for v in gs.idx_bounds(O.BoundingBox(*qthin, CRS))), sig="idxb|thin-cex")
     key = "bbox-query-thin-query-widened"
     widened = out == "0 0 2 1"
@@ -796,6 +863,23 @@ def run(R: Run):
                          "(Spec/ConvexDisjoint is validated against it on every run)")
     R.assumptions.append("model fl64 = IEEE-754 binary64 RNE, validated against CPython Fraction->float each run")
     R.searchers.append(search)
+    flush_fbuf(R)
+
+
+def other_crs_case(O, ring):
+    """EPSG:4326 triangle queried against the Australian Albers grid; reference = shapely on the polygon as
+    reprojected by the library itself"""
+    import shapely.geometry as sg
+
+    try:
+        gsa = O.GridSpec("epsg:3577", (4000, 4000), 25.0)
+        p = O.geom.polygon([tuple(map(float, q)) for q in ring], "epsg:4326")
+        got = sorted(tuple(map(int, k)) for k, _ in gsa.tiles_from_geopolygon(p))
+        pp = p.to_crs("epsg:3577", check_and_fix=True)
+        ref = sorted(tuple(map(int, k)) for k, gb in gsa.tiles(pp.boundingbox) if pp.geom.intersects(sg.box(*gb.boundingbox)))
+        return got == ref and len(got) > 0, f"tiles_from_geopolygon {got[:8]} vs shapely reference {ref[:8]}"
+    except Exception as e:  # pylint: disable=broad-except
+        return False, repr(e)
 
 
 def e_safe_fst(q, ix, iy, px, py) -> bool:
@@ -936,6 +1020,22 @@ def replay(R: Run, rec) -> int:
             oracle_polygon(C, gs, sp, [tuple(f(v) for v in p) for p in case["pts"]], False, O)
         elif op == "fstrt":
             oracle_roundtrip(C, gs, sp, tuple(case["j"]), [tuple(k) for k in case["ks"]], False, O)
+    elif rec.get("key") in ("bin-mem", "bins-abut"):
+        b1 = O.Bin1D(f(case["sz"]), f(case["o"]), case["d"])
+        if "x" in case:
+            x = f(case["x"])
+            k = b1.bin(x)
+            lo, hi = b1[k]
+            print(f"bin({x}) = {k}; bin {k} = [{lo},{hi})")
+            return 0 if Fraction(lo) <= Fraction(x) < Fraction(hi) else 1
+        k = case["k"]
+        (lo, hi), (nlo, _) = b1[k], b1[k + case["d"]]
+        print(f"bin {k} = [{lo},{hi}); bin {k + case['d']} starts at {nlo}")
+        return 0 if hi == nlo and Fraction(hi) - Fraction(lo) == Fraction(case["sz"]) else 1
+    elif rec.get("key") == "polygon-query-other-crs":
+        ok, what = other_crs_case(O, case["ring"])
+        print(what)
+        return 0 if ok else 1
     elif rec.get("kind") == "no-failing-input-found":
         for b in rec.get("broken", []):
             for mm in (b.get("first") or [])[:5]:
